@@ -74,6 +74,27 @@ CHECKS = {
         note="Quick tier compares the first 30 and last 12 tail intervals per zone and walks every 40th zone's tail to 9999; thorough compares all. CLDR windows mapping and zone locations fields are skipped by length only.",
         technique="independent TLA+ decoder of the database bytes run by TLC + rule evaluation in TLA+, compared with API walks by trace validation",
     ),
+    "C10": dict(
+        category="model_checking",
+        text=("LocalTimeArith.tla states time-of-day addition as modular arithmetic and transcribes the two-branch carry/borrow algorithm "
+              "of the time period field; TLC proves them equal for all times x amounts in +-3 days on scaled days; real LocalTime, "
+              "LocalDateTime (all calendars, range edges), Period addition and time adjusters are recorded and TLC recomputes every "
+              "result on the nanosecond time line (T3 numerals, amounts far beyond 64 bit as mixed-radix digits)."),
+        design_ref="DESIGN.md section 5 C10",
+        note="Periods with months/years belong to C09; date validity of the carried day is C01's.",
+        technique="TLA+ modular-arithmetic spec vs transcribed algorithm in TLC + TLC trace validation of recorded calls",
+    ),
+    "C11": dict(
+        category="model_checking",
+        text=("OffsetValues.tla defines offset/zoned values as (instant, offset, calendar[, zone]) with derived local time and states "
+              "the laws (instant stable under offset/calendar change, exact shift with parts retained, difference = elapsed time); TLC "
+              "checks the laws on a grid with double day carries; every constructor/with_*/plus/minus/diff/adjuster/conversion route "
+              "of OffsetDateTime/OffsetDate/OffsetTime/ZonedDateTime is recorded and validated, zoned offsets against the zone "
+              "interval containing the instant."),
+        design_ref="DESIGN.md section 5 C11",
+        note="Zone intervals are taken from the zone API (validated by C04/C06); 16 zones per run.",
+        technique="TLA+ value laws checked by TLC + TLC trace validation of recorded operations",
+    ),
     "C14": dict(
         category="model_checking",
         text=("NzdCodec.tla specifies every documented encoding (varint, zig-zag, 4-way milliseconds with its canonical choice, "
@@ -85,6 +106,16 @@ CHECKS = {
         design_ref="DESIGN.md section 5 C14",
         note="Quick tier: +-2 ms around every whole minute of the 2-day millisecond domain (thorough: every whole second) plus random values; signed counts within +-2^30.",
         technique="TLA+ codec specification model-checked by TLC + TLC trace validation of real writer/reader byte streams",
+    ),
+    "C18": dict(
+        category="model_checking",
+        text=("Intervals.tla defines DateInterval/Interval operations and TLC proves they are the set operations on all pairs over a "
+              "small day range; real DateInterval pairs in every calendar (adjacent, overlapping, nested, range ends), constructor "
+              "rejections, mixed calendars, Interval membership/bounds/duration incl. unbounded ends and YearMonth.to_date_interval "
+              "are recorded and validated by TLC."),
+        design_ref="DESIGN.md section 5 C18",
+        note="Interval has no intersection/union in this port; those clauses are exercised on DateInterval only.",
+        technique="TLA+ set-semantics spec checked by TLC + TLC trace validation",
     ),
     "C19": dict(
         category="model_checking",
